@@ -16,7 +16,7 @@
                                        value = N | raw <bytes> | val <codec value tokens>;  error = N | t <text> | parse
      hreq <drv> <helper>            -> <seq'> ok <frame> | <seq'> err <code> | <seq'> needfo
      hresp <drv> <helper> <raw>     -> ok <codec value>            (modinfo / plcname / plcinfo)
-                                     | time <us | N> <error>       (gettime)
+                                     | time <us | N> <datetime present 0/1> <error>   (gettime)
                                      | tag <value> <error>         (settime)
                                      | err <code> | hang
           <helper> = modinfo <slot> | plcname | plcinfo | gettime | settime <us>
@@ -320,7 +320,8 @@ Definition helper_response (h : helper) (a : gm_args) (raw : bytes) : list tok :
   | HPlcInfo => print_valres (get_plc_info_response a raw)
   | HGetTime =>
       match get_plc_time_response a raw with
-      | Ok t => sym "time" :: match tt_microseconds t with Some z => [TInt z] | None => [sym "N"] end ++ print_gerr (tt_error t)
+      | Ok t => sym "time" :: match tt_microseconds t with Some z => [TInt z] | None => [sym "N"] end
+                ++ TInt (if tt_datetime t then 1 else 0) :: print_gerr (tt_error t)
       | Err e => [sym "err"; TInt (exn_code e)]
       end
   | HSetTime _ => print_tag (set_plc_time_response a raw)
